@@ -7,7 +7,9 @@ import Verif.Model.CRL
   validated on every fetched list by the harness, not modelled).  Histories are arbitrary event
   lists over arbitrary sets of revocations and generations (start-up, ticks, forced), i.e.
   every interleaving of their atomic steps and every placement of restarts.
-  Scope, stated in the hypotheses: one process per database (`lock` is that process's mutex).
+  Scope, stated in the hypotheses: one generator per database (`lock` is that authority's mutex);
+  section 4 shows that a reload which stops the old generator re-establishes it (`reload_discharges`)
+  and what happens when it does not (`reload_without_stop`).
 -/
 namespace Verif.CRL
 open Verif Verif.Store
@@ -27,7 +29,7 @@ def Inv (s : G × List Req) : Prop :=
   (∀ r ∈ s.2, Loc r ∧ (r.holding = true → (r.pc = 3 ∨ r.pc = 4) → r.prev = s.1.crl.map (·.number)))
 
 theorem loc_step (g : G) (r : Req) (hm : g.mutex = true) : Loc r → Loc (step g r).2 := by
-  unfold Loc step
+  unfold Loc step failExit
   intro ⟨a, b⟩
   split
   · exact ⟨a, b⟩
@@ -102,6 +104,32 @@ theorem inv_exec (s : G × List Req) (e : Ev) : Inv s → Inv (machine.exec s e)
       · -- case analysis on the program counter
         rcases Nat.lt_or_ge r.pc 6 with hlt | hge
         · have hpc : r.pc = 0 ∨ r.pc = 1 ∨ r.pc = 2 ∨ r.pc = 3 ∨ r.pc = 4 ∨ r.pc = 5 := by omega
+          by_cases hfail : (r.pc = 2 ∨ r.pc = 3 ∨ r.pc = 4) ∧ r.inp.fail = r.pc
+          · -- a failing generation: returns through the deferred unlock, nothing written
+            have hh : r.holding = true := lb hp (by omega) (by omega)
+            have hst : step s.1 r = ({ s.1 with lock := false }, { r with pc := 6, holding := false, out := .err }) := by
+              unfold step failExit
+              rcases hfail.1 with h | h | h
+              · have hf : r.inp.fail = 2 := by rw [hfail.2, h]
+                simp [hp, h, i1, hf]
+              · have hf : r.inp.fail = 3 := by rw [hfail.2, h]
+                simp [hp, h, i1, hf]
+              · have hf : r.inp.fail = 4 := by rw [hfail.2, h]
+                simp [hp, h, i1, hf]
+            rw [hst]
+            have hc := countP_set (·.holding) s.2 t r { r with pc := 6, holding := false, out := .err } hr
+            have hle := holders_le_one s h'
+            rw [hh] at hc; simp at hc
+            refine ⟨i1, i2, i3, ?_, ?_⟩
+            · dsimp only
+              have h0 : (s.2.set t { r with pc := 6, holding := false, out := .err }).countP (·.holding) = 0 := by omega
+              rw [h0]; simp
+            · refine forall_set _ s.2 t _ i5 ⟨?_, ?_⟩
+              · unfold Loc; simp
+              · simp
+          have hnf : ∀ n, r.pc = n → (n = 2 ∨ n = 3 ∨ n = 4) → ¬ r.inp.fail = n := by
+            intro n hn hn' hf
+            exact hfail ⟨by rw [hn]; exact hn', by rw [hf, hn]⟩
           rcases hpc with h0 | h1 | h2 | h3 | h4 | h5
           · -- arrival / the revocation's CAS: the CRL state is untouched
             have hnh : r.holding = false := by
@@ -109,16 +137,16 @@ theorem inv_exec (s : G × List Req) (e : Ev) : Inv s → Inv (machine.exec s e)
               | false => rfl
               | true => have := (la hh).2.1; omega
             refine inv_frame s t r _ _ h' hr ?_ ?_ ?_ ?_ ?_ hloc' ?_ <;>
-              (unfold step; simp only [hp, h0]; (repeat' split) <;> simp_all)
+              (unfold step failExit; simp only [hp, h0]; (repeat' split) <;> simp_all)
           · by_cases hl : s.1.lock = true
             · -- blocked
-              have : step s.1 r = (s.1, r) := by unfold step; simp [hp, h1, i1, hl]
+              have : step s.1 r = (s.1, r) := by unfold step failExit; simp [hp, h1, i1, hl]
               rw [this]
               exact inv_frame s t r r s.1 h' hr rfl rfl rfl rfl rfl ⟨la, lb⟩ l4
             · -- acquire
               have hl : s.1.lock = false := by simpa using hl
               have hst : step s.1 r = ({ s.1 with lock := true }, { r with pc := 2, holding := true }) := by
-                unfold step; simp [hp, h1, i1, hl]
+                unfold step failExit; simp [hp, h1, i1, hl]
               rw [hst]
               have hnh : r.holding = false := by
                 cases hh : r.holding with
@@ -132,11 +160,11 @@ theorem inv_exec (s : G × List Req) (e : Ev) : Inv s → Inv (machine.exec s e)
               · simp
           · -- read the stored number
             have hst : step s.1 r = (s.1, { r with pc := 3, prev := s.1.crl.map (·.number) }) := by
-              unfold step; simp [hp, h2]
+              unfold step failExit; simp [hp, h2, hnf 2 h2 (.inl rfl)]
             rw [hst]
             exact inv_frame s t r _ s.1 h' hr rfl rfl rfl rfl rfl (by rw [← hst]; exact hloc') (by simp)
           · have hst : step s.1 r = (s.1, { r with pc := 4, snap := s.1.revoked }) := by
-              unfold step; simp [hp, h3]
+              unfold step failExit; simp [hp, h3, hnf 3 h3 (.inr (.inl rfl))]
             rw [hst]
             exact inv_frame s t r _ s.1 h' hr rfl rfl rfl rfl rfl (by rw [← hst]; exact hloc')
               (fun hh _ => l4 hh (.inl h3))
@@ -144,7 +172,7 @@ theorem inv_exec (s : G × List Req) (e : Ev) : Inv s → Inv (machine.exec s e)
             have hh : r.holding = true := lb hp (by omega) (by omega)
             have hprev := l4 hh (.inr h4)
             have hst : step s.1 r = ({ s.1 with crl := some (mkCRL r.prev r.snap r.inp.now s.1.cache), log := mkCRL r.prev r.snap r.inp.now s.1.cache :: s.1.log }, { r with pc := 5 }) := by
-              unfold step; simp [hp, h4]
+              unfold step failExit; simp [hp, h4, hnf 4 h4 (.inr (.inr rfl))]
             rw [hst]
             refine ⟨i1, ?_, rfl, ?_, ?_⟩
             · show (mkCRL r.prev r.snap r.inp.now s.1.cache :: s.1.log).Pairwise _
@@ -174,7 +202,7 @@ theorem inv_exec (s : G × List Req) (e : Ev) : Inv s → Inv (machine.exec s e)
           · -- unlock
             have hh : r.holding = true := lb hp (by omega) (by omega)
             have hst : step s.1 r = ({ s.1 with lock := false }, { r with pc := 6, holding := false, out := .ok }) := by
-              unfold step; simp [hp, h5, i1]
+              unfold step failExit; simp [hp, h5, i1]
             rw [hst]
             have hc := countP_set (·.holding) s.2 t r { r with pc := 6, holding := false, out := .ok } hr
             have hle := holders_le_one s h'
@@ -187,11 +215,11 @@ theorem inv_exec (s : G × List Req) (e : Ev) : Inv s → Inv (machine.exec s e)
               · unfold Loc; simp
               · simp
         · have : step s.1 r = (s.1, r) := by
-            unfold step; simp only [hp]; simp
+            unfold step failExit; simp only [hp]; simp
             split <;> first | omega | rfl
           rw [this]
           exact inv_frame s t r r s.1 h' hr rfl rfl rfl rfl rfl ⟨la, lb⟩ l4
-      · have : step s.1 r = (s.1, r) := by unfold step; simp [hp]
+      · have : step s.1 r = (s.1, r) := by unfold step failExit; simp [hp]
         rw [this]
         exact inv_frame s t r r s.1 h' hr rfl rfl rfl rfl rfl ⟨la, lb⟩ l4
 
@@ -236,7 +264,7 @@ theorem log_grows (s : G × List Req) (evs : List Ev) :
     | none => exact ⟨new, hn⟩
     | some r =>
       show ∃ new, (step s'.1 r).1.log = new ++ s.1.log
-      unfold step
+      unfold step failExit
       (repeat' split) <;> first | exact ⟨new, hn⟩ | exact ⟨mkCRL r.prev r.snap r.inp.now s'.1.cache :: new, by simp [hn]⟩
 
 def genReq (now : Nat) : Req := { inp := { kind := .gen, key := [], record := ⟨0, none⟩, now := now } }
@@ -299,7 +327,7 @@ theorem made_exec (s : G × List Req) (e : Ev) : Made s → Made (machine.exec s
       have hmem := mem_of_getElem? _ _ _ hr
       have hrs := hsnap r hmem
       unfold Made; dsimp only
-      unfold step
+      unfold step failExit
       (repeat' split) <;> dsimp only
       all_goals first
         | exact ⟨hlog, forall_set _ s.2 t _ hsnap (by first | exact hrs | (intro e he; exact he))⟩
@@ -342,13 +370,13 @@ def K (e : Str × RevRec) (s : G × List Req) : Prop :=
   e ∈ s.1.revoked ∧ ∀ y ∈ s.2, y.out = .pending → (y.pc = 4 ∨ y.pc = 5) → e ∈ y.snap
 
 theorem step_revoked_mono (g : G) (r : Req) (e : Str × RevRec) (h : e ∈ g.revoked) : e ∈ (step g r).1.revoked := by
-  unfold step
+  unfold step failExit
   (repeat' split) <;> first | exact h | exact mem_casNil _ _ _ e h
 
 theorem step_snap (g : G) (r : Req) (e : Str × RevRec) (h : e ∈ g.revoked)
     (hr : r.out = .pending → (r.pc = 4 ∨ r.pc = 5) → e ∈ r.snap) :
     (step g r).2.out = .pending → ((step g r).2.pc = 4 ∨ (step g r).2.pc = 5) → e ∈ (step g r).2.snap := by
-  unfold step
+  unfold step failExit
   (repeat' split) <;> simp_all
 
 theorem k_exec (e : Str × RevRec) (s : G × List Req) (ev : Ev) : K e s → K e (machine.exec s ev) := by
@@ -382,7 +410,7 @@ def Q (s : G × List Req) : Prop :=
     ((r.out = .pending → 1 ≤ r.pc → ent r ∈ s.1.revoked) ∧ (r.out = .ok ∨ (r.out = .pending ∧ 2 ≤ r.pc) → K (ent r) s))
 
 theorem step_inp (g : G) (r : Req) : (step g r).2.inp = r.inp := by
-  unfold step; (repeat' split) <;> simp
+  unfold step failExit; (repeat' split) <;> simp
 
 theorem q_exec (s : G × List Req) (ev : Ev) (hinv : Inv s) : Q s → Q (machine.exec s ev) := by
   intro hq
@@ -433,13 +461,13 @@ theorem q_exec (s : G × List Req) (ev : Ev) (hinv : Inv s) : Q s → Q (machine
           · exact step_revoked_mono s.1 r _ (q1 h0.1 h0.2)
           · -- it was the CAS step
             have hp0 : r.out = .pending := by
-              revert hp; unfold step; (repeat' split) <;> simp_all
+              revert hp; unfold step failExit; (repeat' split) <;> simp_all
             have hpc0 : r.pc = 0 := by
               cases hz : r.pc with
               | zero => rfl
               | succ n => exact absurd ⟨hp0, by omega⟩ h0
             revert hp hpc
-            unfold step ent
+            unfold step failExit ent
             simp only [hp0, hpc0, hk]
             by_cases hc : (casNil s.1.revoked r.inp.key r.inp.record).2 = true
             · have hn := (casNil_swapped _ _ _).1 hc
@@ -451,11 +479,11 @@ theorem q_exec (s : G × List Req) (ev : Ev) (hinv : Inv s) : Q s → Q (machine
           · exact k_exec (ent r) s (.step t) (q2 hold)
           · -- it just acquired the mutex: nobody else is between snapshot and unlock
             have hp : r.out = .pending := by
-              revert h hold; unfold step; (repeat' split) <;> simp_all
+              revert h hold; unfold step failExit; (repeat' split) <;> simp_all
             have hpc : r.pc = 1 := by
-              revert h hold; unfold step; simp only [hp]; (repeat' split) <;> simp_all <;> omega
+              revert h hold; unfold step failExit; simp only [hp]; (repeat' split) <;> simp_all <;> omega
             have hfree : s.1.lock = false := by
-              revert h; unfold step; simp only [hp, hpc, hinv.1]
+              revert h; unfold step failExit; simp only [hp, hpc, hinv.1]
               cases hl : s.1.lock <;> simp [hpc, hp]
             have hin : ent r ∈ s.1.revoked := q1 hp (by omega)
             rw [hex]
@@ -467,7 +495,7 @@ theorem q_exec (s : G × List Req) (ev : Ev) (hinv : Inv s) : Q s → Q (machine
             intro z hz hzp hzpc
             rcases mem_set_cases s.2 t _ z hz with hzx | hzl
             · subst hzx
-              exfalso; revert hzpc; unfold step; simp [hp, hpc, hinv.1, hfree]
+              exfalso; revert hzpc; unfold step failExit; simp [hp, hpc, hinv.1, hfree]
             · have := ((hinv.2.2.2.2 z hzl).1).2 hzp (by omega) (by omega)
               rw [hnone z hzl] at this; cases this
       · obtain ⟨q1, q2⟩ := hq y hyl hk
@@ -498,17 +526,17 @@ theorem w_exec (e : Str × RevRec) (log1 : List CRLRec) (s : G × List Req) (ev 
     | some r =>
       show ∃ new, (step s.1 r).1.log = new ++ log1 ∧ _
       have hmem := mem_of_getElem? _ _ _ hr
-      by_cases h4 : r.out = .pending ∧ r.pc = 4
+      by_cases h4 : r.out = .pending ∧ r.pc = 4 ∧ ¬ r.inp.fail = 4
       · have hst : (step s.1 r).1.log = mkCRL r.prev r.snap r.inp.now s.1.cache :: s.1.log := by
-          unfold step; simp [h4.1, h4.2]
+          unfold step failExit; simp [h4.1, h4.2.1, h4.2.2]
         refine ⟨mkCRL r.prev r.snap r.inp.now s.1.cache :: new, by rw [hst, hlog]; rfl, ?_⟩
         intro c hc hkeep
         rcases List.mem_cons.1 hc with h | h
         · subst h
-          exact mem_entries _ _ _ _ e (hk.2 r hmem h4.1 (.inl h4.2)) hkeep
+          exact mem_entries _ _ _ _ e (hk.2 r hmem h4.1 (.inl h4.2.1)) hkeep
         · exact hall c h hkeep
       · have hst : (step s.1 r).1.log = s.1.log := by
-          unfold step; (repeat' split) <;> simp_all
+          unfold step failExit; (repeat' split) <;> simp_all
         exact ⟨new, by rw [hst, hlog], hall⟩
 
 /-- **on_revoke_visible.** With generate-on-revoke: take any history `evs1` after which a
@@ -540,4 +568,258 @@ theorem on_revoke_visible (g : G) (rs : List Req) (hm : g.mutex = true) (hl : g.
   rw [Machine.run_append]
   exact ⟨hK.1, h2.2⟩
 
+/-! ## 4. reload: the hypothesis "one generator per database" across a configuration reload -/
+
+/-- `numbers_increase` from any state that satisfies the invariant (not only from a fresh one) -/
+theorem numbers_increase_inv (s : G × List Req) (h : Inv s) (evs : List Ev) :
+    (numbers (machine.run s evs).1).Pairwise (· < ·) := by
+  have h := Machine.run_inv machine Inv (fun s e h => inv_exec s e h) evs s h
+  unfold numbers
+  rw [List.pairwise_reverse, List.pairwise_map]
+  exact h.2.1
+
+theorem step_cache (g : G) (r : Req) : (step g r).1.cache = g.cache := by
+  unfold step failExit; (repeat' split) <;> simp
+
+/-- every list stored from now on carries the interval of the configured cache duration -/
+theorem interval_new (s : G × List Req) (evs : List Ev) :
+    (machine.run s evs).1.cache = s.1.cache ∧
+    ∃ new, (machine.run s evs).1.log = new ++ s.1.log ∧ ∀ c ∈ new, c.nextUpdate = c.thisUpdate + s.1.cache := by
+  refine Machine.run_inv machine (fun s' => s'.1.cache = s.1.cache ∧
+    ∃ new, s'.1.log = new ++ s.1.log ∧ ∀ c ∈ new, c.nextUpdate = c.thisUpdate + s.1.cache) ?_ evs s
+    ⟨rfl, [], rfl, fun c hc => by cases hc⟩
+  intro s' e ⟨hc, new, hn, hall⟩
+  cases e with
+  | restart now => exact ⟨hc, new, hn, hall⟩
+  | step t =>
+    simp only [Machine.exec, machine]
+    cases hr : s'.2[t]? with
+    | none => exact ⟨hc, new, hn, hall⟩
+    | some r =>
+      show (step s'.1 r).1.cache = s.1.cache ∧ ∃ new, (step s'.1 r).1.log = new ++ s.1.log ∧ _
+      refine ⟨by rw [step_cache]; exact hc, ?_⟩
+      by_cases h4 : r.out = .pending ∧ r.pc = 4 ∧ ¬ r.inp.fail = 4
+      · have hst : (step s'.1 r).1.log = mkCRL r.prev r.snap r.inp.now s'.1.cache :: s'.1.log := by
+          unfold step failExit; simp [h4.1, h4.2.1, h4.2.2]
+        refine ⟨mkCRL r.prev r.snap r.inp.now s'.1.cache :: new, by rw [hst, hn]; rfl, ?_⟩
+        intro c hcm
+        rcases List.mem_cons.1 hcm with h | h
+        · subst h; simp [mkCRL, hc]
+        · exact hall c h
+      · have hst : (step s'.1 r).1.log = s'.1.log := by
+          unfold step failExit; (repeat' split) <;> simp_all
+        exact ⟨new, by rw [hst, hn], hall⟩
+
+/-! ### reload -/
+
+/-- how the single-authority machine sees a request of the two-authority machine: a tick of a
+    stopped old generator is a request that never does anything -/
+def pr (q : Req2) : Req := if q.old then { q.r with out := .dropped, holding := false } else q.r
+
+def proj (s2 : G2 × List Req2) : G × List Req := (s2.1.g, s2.2.map pr)
+
+/-- the old generator is stopped and none of its ticks is in flight -/
+def OldInert (s2 : G2 × List Req2) : Prop :=
+  s2.1.oldStopped = true ∧ ∀ q ∈ s2.2, q.old = true → q.r.out = .pending → q.r.pc = 0
+
+theorem step_nonpending (g : G) (r : Req) (h : r.out ≠ .pending) : step g r = (g, r) := by
+  unfold step failExit; simp [h]
+
+theorem step2_sim (g2 : G2) (q : Req2) (hs : g2.oldStopped = true)
+    (hq : q.old = true → q.r.out = .pending → q.r.pc = 0) :
+    (step2 g2 q).1.g = (step g2.g (pr q)).1 ∧ pr (step2 g2 q).2 = (step g2.g (pr q)).2 ∧
+    (step2 g2 q).1.oldStopped = true ∧
+    ((step2 g2 q).2.old = true → (step2 g2 q).2.r.out = .pending → (step2 g2 q).2.r.pc = 0) := by
+  cases hold : q.old with
+  | false =>
+    unfold step2 pr; simp [hold, hs]
+  | true =>
+    have hpr : (pr q).out ≠ .pending := by unfold pr; simp [hold]
+    rw [step_nonpending _ _ hpr]
+    by_cases hp : q.r.out = .pending
+    · have hpc := hq hold hp
+      unfold step2 pr; simp [hold, hs, hp, hpc]
+    · unfold step2
+      simp only [hold, if_true]
+      have hn : ¬ (g2.oldStopped = true ∧ q.r.pc = 0 ∧ q.r.out = .pending) := fun h => hp h.2.2
+      simp only [hn, if_false]
+      rw [step_nonpending _ _ hp]
+      refine ⟨by cases g2; rename_i g _ _ _; cases g; rfl, by unfold pr; simp [hold], hs, fun _ h => absurd h hp⟩
+
+theorem sim_exec (s2 : G2 × List Req2) (e : Ev) (h : OldInert s2) :
+    proj (machine2.exec s2 e) = machine.exec (proj s2) e ∧ OldInert (machine2.exec s2 e) := by
+  obtain ⟨hs, hq⟩ := h
+  cases e with
+  | restart now =>
+    simp only [Machine.exec, machine2, machine, proj, restartG2, List.map_map]
+    refine ⟨?_, rfl, ?_⟩
+    · congr 1
+      apply List.map_congr_left
+      intro q _
+      simp only [Function.comp, restartL2, pr]
+      by_cases hold : q.old = true
+      · simp only [hold, if_true]; unfold restartL; split <;> simp
+      · simp [hold]
+    · intro q hqm hold hp
+      rcases List.mem_map.1 hqm with ⟨q', hq', rfl⟩
+      revert hp; simp only [restartL2]; unfold restartL
+      split
+      · simp
+      · intro hp; exact hq q' hq' hold hp
+  | step t =>
+    simp only [Machine.exec, machine2, machine, proj]
+    cases hr : s2.2[t]? with
+    | none => simp [hr]; exact ⟨hs, hq⟩
+    | some q =>
+      have hmem := mem_of_getElem? _ _ _ hr
+      obtain ⟨a, b, c, d⟩ := step2_sim s2.1 q hs (hq q hmem)
+      simp [hr, List.map_set, a, b]
+      exact ⟨c, forall_set _ s2.2 t _ hq d⟩
+
+theorem sim_run (s2 : G2 × List Req2) (evs : List Ev) (h : OldInert s2) :
+    proj (machine2.run s2 evs) = machine.run (proj s2) evs := by
+  induction evs generalizing s2 with
+  | nil => rfl
+  | cons e evs ih =>
+    rw [Machine.run_cons, Machine.run_cons, ih _ (sim_exec s2 e h).2, (sim_exec s2 e h).1]
+
+/-- **reload_discharges.** A reload — new authority on the same database, `CloseForReload` on the
+    old one — that stops the old generator restores the hypothesis "one generator per database":
+    whatever ticks the old ticker still had ahead of it (`old` requests, not yet fired), and
+    whatever the new authority does (start-up generation, ticks, revocations), under every
+    interleaving and restart placement the numbers of all lists ever stored are strictly
+    increasing, and every list stored from the reload on has the interval
+    `[thisUpdate, thisUpdate + the NEW cache duration]`. -/
+theorem reload_discharges (g2 : G2) (qs : List Req2) (hstop : g2.oldStopped = true)
+    (hm : g2.g.mutex = true) (hl : g2.g.lock = false)
+    (hsorted : g2.g.log.Pairwise (fun a b => a.number > b.number)) (hcrl : g2.g.crl = g2.g.log.head?)
+    (hfresh : ∀ q ∈ qs, q.r.fresh) (evs : List Ev) :
+    (numbers (machine2.run (g2, qs) evs).1.g).Pairwise (· < ·) ∧
+    ∃ new, (machine2.run (g2, qs) evs).1.g.log = new ++ g2.g.log ∧
+      ∀ c ∈ new, c.nextUpdate = c.thisUpdate + g2.g.cache := by
+  have hin : OldInert (g2, qs) := ⟨hstop, fun q hq _ _ => (hfresh q hq).1⟩
+  have hsim := sim_run (g2, qs) evs hin
+  have hinv : Inv (proj (g2, qs)) := by
+    refine ⟨hm, hsorted, hcrl, ?_, ?_⟩
+    · simp [proj, hl]
+      intro q hq
+      unfold pr; split
+      · rfl
+      · exact (hfresh q hq).2.1
+    · intro r hr
+      simp only [proj] at hr
+      rcases List.mem_map.1 hr with ⟨q, hq, rfl⟩
+      obtain ⟨h1, h2, h3⟩ := hfresh q hq
+      unfold pr Loc; split <;> simp [h1, h2, h3]
+  have h1 := numbers_increase_inv (proj (g2, qs)) hinv evs
+  have h2 := interval_new (proj (g2, qs)) evs
+  rw [← hsim] at h1 h2
+  exact ⟨h1, h2.2⟩
+
+def tick (old : Bool) (now : Nat) : Req2 := { old := old, r := genReq now }
+
+/-- **reload_without_stop (refutation).** If the old authority's generator is *not* stopped by the
+    reload (`CloseForReload` doing nothing), a tick of the old ticker after the new authority's
+    start-up generation stores a list with the OLD interval (600 s instead of the configured
+    3600 s), and an old tick interleaved with a new generation stores the same number twice —
+    the two authorities have different mutexes. -/
+theorem reload_without_stop :
+    ∃ (g2 : G2) (qs : List Req2) (evs evs' : List Ev), g2.oldStopped = false ∧ g2.g.mutex = true ∧
+      g2.g.lock = false ∧ g2.oldLock = false ∧ g2.g.log = [] ∧ g2.g.crl = none ∧ (∀ q ∈ qs, q.r.fresh) ∧
+      (machine2.run (g2, qs) evs).1.g.log.map (fun c => c.nextUpdate - c.thisUpdate) = [600, 3600] ∧
+      numbers (machine2.run (g2, qs) evs').1.g = [0, 0] :=
+  ⟨{ g := { revoked := [], crl := none, log := [], lock := false, cache := 3600, mutex := true },
+     oldLock := false, oldCache := 600, oldStopped := false },
+   [tick false 10, tick true 12],
+   [.step 0, .step 0, .step 0, .step 0, .step 0, .step 0, .step 1, .step 1, .step 1, .step 1, .step 1, .step 1],
+   [.step 0, .step 1, .step 0, .step 1, .step 0, .step 1, .step 0, .step 1, .step 0, .step 1, .step 0, .step 1],
+   by decide⟩
+
+/-- with the old generator stopped the same requests and schedules give one list, interval 3600 -/
+def g2stopped : G2 := { g := { revoked := [], crl := none, log := [], lock := false, cache := 3600, mutex := true }, oldLock := false, oldCache := 600, oldStopped := true }
+
+example : (machine2.run (g2stopped, [tick false 10, tick true 12])
+   [.step 0, .step 1, .step 0, .step 1, .step 0, .step 1, .step 0, .step 1, .step 0, .step 1, .step 0, .step 1]).1.g.log.map
+     (fun c => (c.number, c.nextUpdate - c.thisUpdate)) = [(0, 3600)] := by decide
+/-! ## 5. errors inside a generation -/
+
+/-- **failed_generation_harmless.** A generation that fails inside the critical section
+    (`GetCRL` with an error other than not-found, `GetRevokedCertificates`, `CreateCRL`/`StoreCRL`)
+    leaves the stored list, the history of stored lists and the revoked table exactly as they
+    were — the previous list stays served — releases the mutex, and is answered with an error. -/
+theorem failed_generation_harmless (g : G) (r : Req) (hm : g.mutex = true) (hp : r.out = .pending)
+    (hpc : r.pc = 2 ∨ r.pc = 3 ∨ r.pc = 4) (hf : r.inp.fail = r.pc) :
+    (step g r).1.crl = g.crl ∧ (step g r).1.log = g.log ∧ (step g r).1.revoked = g.revoked ∧
+    (step g r).1.lock = false ∧ (step g r).2.out = .err ∧ (step g r).2.holding = false := by
+  unfold step failExit
+  rcases hpc with h | h | h
+  · have : r.inp.fail = 2 := by rw [hf, h]
+    simp [hp, h, hm, this]
+  · have : r.inp.fail = 3 := by rw [hf, h]
+    simp [hp, h, hm, this]
+  · have : r.inp.fail = 4 := by rw [hf, h]
+    simp [hp, h, hm, this]
+
+/-- the history of stored lists carries the numbers k−1, …, 1, 0 -/
+def Consec : List CRLRec → Prop
+  | [] => True
+  | c :: rest => c.number = rest.length ∧ Consec rest
+
+theorem consec_exec (s : G × List Req) (e : Ev) (hi : Inv s) (hc : Consec s.1.log) :
+    Consec (machine.exec s e).1.log := by
+  cases e with
+  | restart now => exact hc
+  | step t =>
+    simp only [Machine.exec, machine]
+    cases hr : s.2[t]? with
+    | none => exact hc
+    | some r =>
+      show Consec (step s.1 r).1.log
+      have hmem := mem_of_getElem? _ _ _ hr
+      obtain ⟨i1, i2, i3, i4, i5⟩ := hi
+      obtain ⟨⟨la, lb⟩, l4⟩ := i5 r hmem
+      by_cases h4 : r.out = .pending ∧ r.pc = 4 ∧ ¬ r.inp.fail = 4
+      · have hst : (step s.1 r).1.log = mkCRL r.prev r.snap r.inp.now s.1.cache :: s.1.log := by
+          unfold step failExit; simp [h4.1, h4.2.1, h4.2.2]
+        rw [hst]
+        have hh : r.holding = true := lb h4.1 (by omega) (by omega)
+        have hprev := l4 hh (.inr h4.2.1)
+        refine ⟨?_, hc⟩
+        rw [hprev, i3]
+        cases hlog : s.1.log with
+        | nil => simp [mkCRL]
+        | cons c rest =>
+          rw [hlog] at hc
+          simp [mkCRL, hc.1]
+      · have hst : (step s.1 r).1.log = s.1.log := by
+          unfold step failExit; (repeat' split) <;> simp_all
+        rw [hst]; exact hc
+
+/-- **numbers_consecutive.** Starting from an empty database, in every history — any
+    interleaving, restarts, and generations failing at any of their steps — the lists ever
+    stored carry exactly the numbers 0, 1, 2, … in storage order: a failed generation does not
+    consume a number, and none is skipped or repeated. -/
+theorem numbers_consecutive (g : G) (rs : List Req) (hm : g.mutex = true) (hl : g.lock = false)
+    (hlog : g.log = []) (hcrl : g.crl = none) (hfresh : ∀ r ∈ rs, r.fresh) (evs : List Ev) :
+    numbers (machine.run (g, rs) evs).1 = List.range (machine.run (g, rs) evs).1.log.length := by
+  have h := Machine.run_inv machine (fun s => Inv s ∧ Consec s.1.log)
+    (fun s e ⟨hi, hc⟩ => ⟨inv_exec s e hi, consec_exec s e hi hc⟩) evs (g, rs)
+    ⟨inv_init g rs hm hl (by rw [hlog]; exact List.Pairwise.nil) (by rw [hlog, hcrl]; rfl) hfresh, by rw [hlog]; trivial⟩
+  have hc := h.2
+  unfold numbers
+  generalize (machine.run (g, rs) evs).1.log = l at hc
+  induction l with
+  | nil => rfl
+  | cons c rest ih =>
+    simp only [List.map_cons, List.reverse_cons, List.length_cons]
+    rw [ih hc.2, hc.1, List.range_succ]
+
+def genFail (now fail : Nat) : Req := { inp := { kind := .gen, key := [], record := ⟨0, none⟩, now := now, fail := fail } }
+
+/-- a failing generation between two successful ones: numbers 0, 1 and the failed request answered `err` -/
+example : (fun s : G × List Req => (numbers s.1, s.2.map (·.out), s.1.lock))
+    (machine.run ({ revoked := [], crl := none, log := [], lock := false, cache := 600, mutex := true },
+      [genReq 10, genFail 11 4, genReq 12])
+      [.step 0, .step 0, .step 0, .step 0, .step 0, .step 0, .step 1, .step 1, .step 1, .step 1, .step 1,
+       .step 2, .step 2, .step 2, .step 2, .step 2, .step 2]) = ([0, 1], [.ok, .err, .ok], false) := by decide
 end Verif.CRL
